@@ -62,6 +62,10 @@ type world struct {
 	bal0   []sdkmath.Int
 	spent  []sdkmath.Int
 	staked common.Address
+	distr0  sdkmath.Int       // balance of the distribution module account at genesis
+	comm0   sdkmath.LegacyDec // community pool at genesis
+	supply0 sdkmath.Int       // supply of the staking denom at genesis (after the users were funded)
+	minted  sdkmath.Int       // coins minted by the harness since (reward allocations)
 	dead   bool     // a monitor fired: the rest of this history is not meaningful
 	lastRet []byte  // return data of the last successful eth transaction
 	seq    []string // op lines of this history including the one being executed (replay of a violation)
@@ -86,7 +90,24 @@ func newWorld(t *testing.T, out *hx.Out, nVal, nUsers int) *world {
 		w.bal0 = append(w.bal0, s.App.BankKeeper.GetBalance(s.Ctx, a, fxtypes.DefaultDenom).Amount)
 		w.spent = append(w.spent, sdkmath.ZeroInt())
 	}
+	w.distr0 = w.moduleBal(distrtypes.ModuleName)
+	w.comm0 = w.communityPool()
+	w.supply0 = s.App.BankKeeper.GetSupply(s.Ctx, fxtypes.DefaultDenom).Amount
+	w.minted = sdkmath.ZeroInt()
 	return w
+}
+
+func (w *world) moduleBal(name string) sdkmath.Int {
+	addr := w.s.App.AccountKeeper.GetModuleAddress(name)
+	return w.s.App.BankKeeper.GetBalance(w.s.Ctx, addr, fxtypes.DefaultDenom).Amount
+}
+
+func (w *world) communityPool() sdkmath.LegacyDec {
+	fp, err := w.s.App.DistrKeeper.FeePool.Get(w.s.Ctx)
+	if err != nil {
+		return sdkmath.LegacyZeroDec()
+	}
+	return fp.CommunityPool.AmountOf(fxtypes.DefaultDenom)
 }
 
 func (w *world) ctx() sdk.Context { return w.s.Ctx }
@@ -222,7 +243,11 @@ func (w *world) dump() string {
 	for vi, v := range w.vals {
 		for d, a := range w.accs {
 			if u, err := app.StakingKeeper.GetUnbondingDelegation(ctx, a, v); err == nil && len(u.Entries) > 0 {
-				us = append(us, fmt.Sprintf("%d:%d:%d", d, vi, len(u.Entries)))
+				bal := sdkmath.ZeroInt()
+				for _, e := range u.Entries {
+					bal = bal.Add(e.Balance)
+				}
+				us = append(us, fmt.Sprintf("%d:%d:%d:%s", d, vi, len(u.Entries), bal))
 			}
 		}
 	}
@@ -236,6 +261,11 @@ func (w *world) dump() string {
 		}
 	}
 	fmt.Fprintf(&sb, " A(%s) G(%s) U(%s) Rd(%s)", strings.Join(al, ","), strings.Join(gs, ","), strings.Join(us, ","), strings.Join(rds, ","))
+	// bank side: the two staking pools, the distribution module account and the community pool (relative to genesis),
+	// coins burned (supply at genesis + coins minted by the harness - supply now)
+	supply := app.BankKeeper.GetSupply(ctx, fxtypes.DefaultDenom).Amount
+	fmt.Fprintf(&sb, " P(%s,%s,%s,%s,%s)", w.moduleBal(stakingtypes.BondedPoolName), w.moduleBal(stakingtypes.NotBondedPoolName),
+		w.moduleBal(distrtypes.ModuleName).Sub(w.distr0), decRaw(w.communityPool().Sub(w.comm0)), w.supply0.Add(w.minted).Sub(supply))
 	return sb.String()
 }
 
@@ -462,6 +492,7 @@ func (w *world) apply(line string) string {
 		coin := sdk.NewCoin(fxtypes.DefaultDenom, amt)
 		funder := w.accs[len(w.accs)-1]
 		w.s.MintToken(funder, coin)
+		w.minted = w.minted.Add(amt)
 		if err := app.BankKeeper.SendCoinsFromAccountToModule(w.ctx(), funder, distrtypes.ModuleName, sdk.NewCoins(coin)); err != nil {
 			panic(err)
 		}
